@@ -97,62 +97,6 @@ Proof.
   unfold is_code_block. rewrite Es. cbn [bind]. apply nr_ok.
 Qed.
 
-(* ---- getLines ---- *)
-(* the scan reads only positions below [lim] *)
-Lemma gl_scan_nr_lim : forall fuel src first last b li indent ts bs,
-  0 <= first -> last <= len src -> nr (gl_scan fuel src first last b li indent ts bs).
-Proof.
-  induction fuel as [|f IH]; intros src first last b li indent ts bs H0 HL; cbn [gl_scan]; [apply nr_ok|].
-  destruct ((first <? last) && (li <? indent)) eqn:E; [|apply nr_ok].
-  apply nr_bind; [apply nr_py_idx; lia|]. intros ch Ec.
-  destruct (is_space ch); [apply IH; lia|]. destruct (first - b <? ts); [apply IH; lia | apply nr_ok].
-Qed.
-
-(* the scan stops at the logical line start p0 = b + ts when a non-blank sits there *)
-Lemma gl_scan_nr_stop : forall fuel src first last b li indent ts bs c0,
-  0 <= first -> b <= first <= b + ts -> py_idx src (b + ts) = Ok c0 -> is_space c0 = false -> 0 <= b ->
-  nr (gl_scan fuel src first last b li indent ts bs).
-Proof.
-  induction fuel as [|f IH]; intros src first last b li indent ts bs c0 H0 HB E0 S0 Hb; cbn [gl_scan]; [apply nr_ok|].
-  destruct ((first <? last) && (li <? indent)) eqn:E; [|apply nr_ok].
-  destruct (py_idx_get src (b + ts) c0 ltac:(lia) E0) as [_ L0].
-  apply nr_bind; [apply nr_py_idx; lia|]. intros ch Ec.
-  destruct (Z.eq_dec first (b + ts)) as [->|Ne].
-  - rewrite E0 in Ec. injection Ec as <-. rewrite S0. replace (b + ts - b <? ts) with false by lia. apply nr_ok.
-  - destruct (is_space ch); [eapply IH; try eassumption; lia|].
-    destruct (first - b <? ts); [eapply IH; try eassumption; lia | apply nr_ok].
-Qed.
-
-(* a line may be cut with its line feed kept if the line feed exists or the line is not empty *)
-Definition keep_ok (st : bstate) (l : Z) : Prop :=
-  forall b e t, tb (b_bMarks st) l = Ok b -> tb (b_eMarks st) l = Ok e -> tb (b_tShift st) l = Ok t ->
-    e < len (b_src st) \/ b + t < e.
-
-Lemma get_lines_loop_nr N st (R : RI N st) : forall fuel line endl indent keep,
-  0 <= line -> endl <= N -> (keep = true -> line < endl -> keep_ok st (endl - 1)) ->
-  nr (get_lines_loop fuel st line endl indent keep).
-Proof.
-  induction fuel as [|f IH]; intros line endl indent keep H0 HE HK; cbn [get_lines_loop]; [apply nr_ok|].
-  destruct (negb (line <? endl)) eqn:E; [apply nr_ok|].
-  destruct (RI_reads N st line R ltac:(lia)) as (b & e & t & sc & bs & Eb & Ee & Et & Es & Ebs & (B0 & T0 & E0 & I1 & I3 & I2)).
-  rewrite Eb, Ee, Et, Ebs. cbn [bind].
-  apply nr_bind.
-  - destruct ((line + 1 <? endl) || keep) eqn:K.
-    + (* the line feed is kept *)
-      assert (Safe : e < len (b_src st) \/ b + t < e).
-      { destruct (line + 1 <? endl) eqn:X; [left; apply I1; lia|]. cbn [orb] in K. subst keep.
-        assert (line = endl - 1) by lia. subst line. exact (HK eq_refl ltac:(lia) b e t Eb Ee Et). }
-      destruct Safe as [S|S]; [apply gl_scan_nr_lim; lia|].
-      destruct (I2 S) as (c0 & Ec0 & Sp0). eapply gl_scan_nr_stop; try eassumption; lia.
-    + apply gl_scan_nr_lim; lia.
-  - intros [first li] _. apply nr_bind; [|intros rest _; apply nr_ok].
-    apply IH; [lia | exact HE|]. intros Hk Hl. apply HK; [exact Hk | lia].
-Qed.
-
-Lemma get_lines_nr N st (R : RI N st) a b indent keep :
-  0 <= a -> b <= N -> (keep = true -> a < b -> keep_ok st (b - 1)) -> nr (get_lines st a b indent keep).
-Proof. intros H0 HE HK. unfold get_lines. destruct (b <=? a); [apply nr_ok|]. apply (get_lines_loop_nr N st R); assumption. Qed.
-
 (* ---- indentation columns as getLines counts them ---- *)
 Fixpoint gcol (fuel : nat) (src : str) (first p0 li bs : Z) : Z :=
   match fuel with
@@ -209,6 +153,37 @@ Proof.
     pose proof (Z.mod_pos_bound (li + bs) 4 ltac:(lia)). lia.
 Qed.
 
+Lemma gcols_split src bs p0 mid : forall (k : nat) first li, Z.to_nat (mid - first) = k -> 0 <= first -> first <= mid -> mid <= p0 ->
+  gcols src first p0 li bs = gcols src mid p0 (gcols src first mid li bs) bs.
+Proof.
+  induction k as [|k IH]; intros first li Hk H0 H1 H2.
+  - assert (first = mid) by lia. subst first. rewrite (gcols_end src mid mid) by lia. reflexivity.
+  - rewrite (gcols_step src first p0) by lia. rewrite (gcols_step src first mid) by lia.
+    destruct (char_at src first) as [ch|] eqn:E.
+    + apply IH; lia.
+    + (* beyond the end of the source nothing is counted on either side *)
+      rewrite LfCount.char_at_nonneg in E by lia. apply nth_error_None in E.
+      assert (G : forall (j : nat) f l, Z.to_nat (p0 - f) = j -> first <= f -> gcols src f p0 l bs = l).
+      { induction j as [|j IHj]; intros f l Hj Hf; [apply gcols_end; lia|]. rewrite gcols_step by lia.
+        rewrite LfCount.char_at_nonneg by lia.
+        assert (X : nth_error src (Z.to_nat f) = None) by (apply nth_error_None; lia). rewrite X. reflexivity. }
+      symmetry. eapply G; [reflexivity | lia].
+Qed.
+
+Lemma gcols_chars src bs p0 : forall (k : nat) first li, Z.to_nat (p0 - first) = k -> 0 <= first -> p0 <= len src ->
+  li + (p0 - first) <= gcols src first p0 li bs \/ p0 < first.
+Proof.
+  induction k as [|k IH]; intros first li Hk H0 HL.
+  - destruct (Z_lt_le_dec p0 first); [right; assumption|]. left. rewrite gcols_end by lia. lia.
+  - left. rewrite gcols_step by lia.
+    assert (E : exists ch, char_at src first = Some ch).
+    { rewrite LfCount.char_at_nonneg by lia. destruct (nth_error src (Z.to_nat first)) eqn:X; [eexists; reflexivity|]. apply nth_error_None in X. unfold len in HL. lia. }
+    destruct E as [ch E]. rewrite E.
+    destruct (IH (first + 1) (if is_space ch then if ch =? 9 then li + (4 - (li + bs) mod 4) else li + 1 else li + 1) ltac:(lia) ltac:(lia) HL) as [A|A]; [|lia].
+    eapply Z.le_trans; [|exact A]. destruct (is_space ch); [|lia]. destruct (ch =? 9); [|lia].
+    pose proof (Z.mod_pos_bound (li + bs) 4 ltac:(lia)). lia.
+Qed.
+
 (* once the columns up to the logical line start reach the indent, the scan stops there at the latest *)
 Lemma gl_scan_nr_cols : forall fuel src first last b li indent ts bs,
   0 <= first -> b <= first <= b + ts -> b + ts <= len src -> indent <= gcols src first (b + ts) li bs ->
@@ -228,6 +203,67 @@ Proof.
   - apply IH; try lia; try exact HC.
   - assert (X : (first - b <? ts) = true) by lia. rewrite X. apply IH; try lia; try exact HC.
 Qed.
+
+(* ---- getLines ---- *)
+(* the scan reads only positions below [lim] *)
+Lemma gl_scan_nr_lim : forall fuel src first last b li indent ts bs,
+  0 <= first -> last <= len src -> nr (gl_scan fuel src first last b li indent ts bs).
+Proof.
+  induction fuel as [|f IH]; intros src first last b li indent ts bs H0 HL; cbn [gl_scan]; [apply nr_ok|].
+  destruct ((first <? last) && (li <? indent)) eqn:E; [|apply nr_ok].
+  apply nr_bind; [apply nr_py_idx; lia|]. intros ch Ec.
+  destruct (is_space ch); [apply IH; lia|]. destruct (first - b <? ts); [apply IH; lia | apply nr_ok].
+Qed.
+
+(* the scan stops at the logical line start p0 = b + ts when a non-blank sits there *)
+Lemma gl_scan_nr_stop : forall fuel src first last b li indent ts bs c0,
+  0 <= first -> b <= first <= b + ts -> py_idx src (b + ts) = Ok c0 -> is_space c0 = false -> 0 <= b ->
+  nr (gl_scan fuel src first last b li indent ts bs).
+Proof.
+  induction fuel as [|f IH]; intros src first last b li indent ts bs c0 H0 HB E0 S0 Hb; cbn [gl_scan]; [apply nr_ok|].
+  destruct ((first <? last) && (li <? indent)) eqn:E; [|apply nr_ok].
+  destruct (py_idx_get src (b + ts) c0 ltac:(lia) E0) as [_ L0].
+  apply nr_bind; [apply nr_py_idx; lia|]. intros ch Ec.
+  destruct (Z.eq_dec first (b + ts)) as [->|Ne].
+  - rewrite E0 in Ec. injection Ec as <-. rewrite S0. replace (b + ts - b <? ts) with false by lia. apply nr_ok.
+  - destruct (is_space ch); [eapply IH; try eassumption; lia|].
+    destruct (first - b <? ts); [eapply IH; try eassumption; lia | apply nr_ok].
+Qed.
+
+(* a line may be cut with its line feed kept if the line feed exists or the line is not empty *)
+Definition keep_ok (st : bstate) (l indent : Z) : Prop :=
+  forall b e t bs, tb (b_bMarks st) l = Ok b -> tb (b_eMarks st) l = Ok e -> tb (b_tShift st) l = Ok t -> tb (b_bsCount st) l = Ok bs ->
+    e < len (b_src st) \/ b + t < e \/ indent <= gcols (b_src st) b (b + t) 0 bs.
+
+(* the recorded indentation never exceeds the columns getLines counts up to the logical line start *)
+Definition CI (st : bstate) : Prop :=
+  forall l b t sc bs, 0 <= l < b_lineMax st -> tb (b_bMarks st) l = Ok b -> tb (b_tShift st) l = Ok t -> tb (b_sCount st) l = Ok sc -> tb (b_bsCount st) l = Ok bs ->
+    sc <= gcols (b_src st) b (b + t) 0 bs.
+
+Lemma get_lines_loop_nr N st (R : RI N st) : forall fuel line endl indent keep,
+  0 <= line -> endl <= N -> (keep = true -> line < endl -> keep_ok st (endl - 1) indent) ->
+  nr (get_lines_loop fuel st line endl indent keep).
+Proof.
+  induction fuel as [|f IH]; intros line endl indent keep H0 HE HK; cbn [get_lines_loop]; [apply nr_ok|].
+  destruct (negb (line <? endl)) eqn:E; [apply nr_ok|].
+  destruct (RI_reads N st line R ltac:(lia)) as (b & e & t & sc & bs & Eb & Ee & Et & Es & Ebs & (B0 & T0 & E0 & I1 & I3 & I2)).
+  rewrite Eb, Ee, Et, Ebs. cbn [bind].
+  apply nr_bind.
+  - destruct ((line + 1 <? endl) || keep) eqn:K.
+    + (* the line feed is kept *)
+      assert (Safe : e < len (b_src st) \/ b + t < e \/ indent <= gcols (b_src st) b (b + t) 0 bs).
+      { destruct (line + 1 <? endl) eqn:X; [left; apply I1; lia|]. cbn [orb] in K. subst keep.
+        assert (line = endl - 1) by lia. subst line. exact (HK eq_refl ltac:(lia) b e t bs Eb Ee Et Ebs). }
+      destruct Safe as [S|[S|S]]; [apply gl_scan_nr_lim; lia| |apply gl_scan_nr_cols; try lia; exact S].
+      destruct (I2 S) as (c0 & Ec0 & Sp0). eapply gl_scan_nr_stop; try eassumption; lia.
+    + apply gl_scan_nr_lim; lia.
+  - intros [first li] _. apply nr_bind; [|intros rest _; apply nr_ok].
+    apply IH; [lia | exact HE|]. intros Hk Hl. apply HK; [exact Hk | lia].
+Qed.
+
+Lemma get_lines_nr N st (R : RI N st) a b indent keep :
+  0 <= a -> b <= N -> (keep = true -> a < b -> keep_ok st (b - 1) indent) -> nr (get_lines st a b indent keep).
+Proof. intros H0 HE HK. unfold get_lines. destruct (b <=? a); [apply nr_ok|]. apply (get_lines_loop_nr N st R); assumption. Qed.
 
 (* ---- writing saved table entries back gives the original table ---- *)
 Lemma tb_ext (l l' : list Z) : len l = len l' -> (forall j, 0 <= j < len l -> tb l j = tb l' j) -> l = l'.
@@ -369,7 +405,7 @@ Qed.
 (* the body of a fence: every line it took in either has its line feed or is not empty *)
 Lemma fence_scan_keep N st (R : RI N st) : forall fuel nl el marker flen r have,
   fence_scan cfg fuel st nl el marker flen = Ok (r, have) -> 0 <= nl -> el <= N ->
-  (nl < r - 1 -> keep_ok st (r - 1)).
+  (nl < r - 1 -> forall indent, keep_ok st (r - 1) indent).
 Proof.
   induction fuel as [|f IH]; intros nl el marker flen r have H H0 HE; cbn [fence_scan] in H; [rfinish H; lia|]. cbv zeta in H.
   destruct (el <=? nl + 1) eqn:E; [rfinish H; lia|].
@@ -378,12 +414,12 @@ Proof.
   destruct ((b + t <? e) && (sc <? b_blkIndent st)); [rfinish H; lia|].
   destruct (char_at (b_src st) (b + t)) as [c|] eqn:Ec; [|rfinish H; lia].
   (* the line nl + 1 may be part of the body: it is keep-safe *)
-  assert (KS : keep_ok st (nl + 1)).
-  { intros b' e' t' Eb' Ee' Et'. rewrite Eb in Eb'. rewrite Ee in Ee'. rewrite Et in Et'. injection Eb' as <-. injection Ee' as <-. injection Et' as <-.
-    destruct (Z_lt_le_dec (b + t) e) as [Lt|Ge]; [right; exact Lt|]. left.
+  assert (KS : forall indent, keep_ok st (nl + 1) indent).
+  { intros indent b' e' t' bs' Eb' Ee' Et' _. rewrite Eb in Eb'. rewrite Ee in Ee'. rewrite Et in Et'. injection Eb' as <-. injection Ee' as <-. injection Et' as <-.
+    destruct (Z_lt_le_dec (b + t) e) as [Lt|Ge]; [right; left; exact Lt|]. left.
     rewrite LfCount.char_at_nonneg in Ec by lia.
     assert (Z.to_nat (b + t) < length (b_src st))%nat by (apply nth_error_Some; congruence). unfold len. lia. }
-  assert (G : forall r' h', fence_scan cfg f st (nl + 1) el marker flen = Ok (r', h') -> nl < r' - 1 -> keep_ok st (r' - 1)).
+  assert (G : forall r' h', fence_scan cfg f st (nl + 1) el marker flen = Ok (r', h') -> nl < r' - 1 -> forall indent, keep_ok st (r' - 1) indent).
   { intros r' h' H' Hr. destruct (Z.eq_dec (r' - 1) (nl + 1)) as [Eq|Ne]; [rewrite Eq; exact KS|].
     apply (IH _ _ _ _ _ _ H'); [lia | lia|]. pose proof (fence_scan_bounds cfg _ _ _ _ _ _ _ _ H') as (A & _). lia. }
   destruct (negb (c =? marker)); [intros Hr; eapply G; eassumption|].
@@ -458,12 +494,51 @@ Proof.
   destruct (test closer (slice (b_src st) (b + t) e)); [apply nr_ok | apply IH; lia].
 Qed.
 
-(* html blocks: with options.html off the rule returns before reading anything but the prologue *)
-Lemma r_html_block_nr N st sl el silent : c_html cfg = false -> pre2 N st sl el -> nr (r_html_block cfg st sl el silent).
+(* the last body line of an html block: it passed the indentation test, so its blanks cover the block indent *)
+Lemma html_scan_keep N st (R : RI N st) (C : CI st) : forall fuel closer nl el r,
+  html_scan fuel st closer nl el = Ok r -> 0 <= nl -> el <= b_lineMax st -> nl < r -> keep_ok st (r - 1) (b_blkIndent st).
 Proof.
-  intros HO (R & S0 & S1 & S2). assert (Hl : 0 <= sl <= N) by (destruct R as [LM _]; lia). prologue R Hl.
+  induction fuel as [|f IH]; intros closer nl el r H H0 HE HR; cbn [html_scan] in H; [rfinish H; lia|].
+  assert (LMN : b_lineMax st <= N) by (destruct R as [LM _]; lia).
+  destruct (negb (nl <? el)) eqn:E; [rfinish H; lia|].
+  destruct (RI_reads N st nl R ltac:(lia)) as (b & e & t & sc & bs & Eb & Ee & Et & Es & Ebs & (B0 & T0 & E0 & I1 & I3 & I2)).
+  unfold line_start in H. rewrite Es in H. cbn [bind] in H. destruct (sc <? b_blkIndent st) eqn:SB; [rfinish H; lia|].
+  rewrite Eb, Et in H. cbn [bind] in H. rewrite Ee in H. cbn [bind] in H. cbv zeta in H.
+  assert (KS : keep_ok st nl (b_blkIndent st)).
+  { intros b' e' t' bs' Eb' Ee' Et' Ebs'. rewrite Eb in Eb'. rewrite Ee in Ee'. rewrite Et in Et'. rewrite Ebs in Ebs'.
+    injection Eb' as <-. injection Ee' as <-. injection Et' as <-. injection Ebs' as <-.
+    right. right. pose proof (C nl b t sc bs ltac:(lia) Eb Et Es Ebs). lia. }
+  destruct (test closer (slice (b_src st) (b + t) e)).
+  - rfinish H. destruct (negb (len (slice (b_src st) (b + t) e) =? 0)); [|lia]. replace (nl + 1 - 1) with nl by lia. exact KS.
+  - destruct (Z.eq_dec r (nl + 1)) as [->|Ne]; [replace (nl + 1 - 1) with nl by lia; exact KS|].
+    pose proof (html_scan_bounds _ _ _ _ _ _ H) as [A _]. eapply IH; [exact H | lia | lia | lia].
+Qed.
+
+Lemma r_html_block_nr N st sl el silent : (silent = false -> CI st) -> pre2 N st sl el -> nr (r_html_block cfg st sl el silent).
+Proof.
+  intros HC (R & S0 & S1 & S2). assert (Hl : 0 <= sl <= N) by (destruct R as [LM _]; lia).
+  assert (LMN : b_lineMax st <= N) by (destruct R as [LM _]; lia). prologue R Hl.
   unfold r_html_block, line_start, code_block_at, is_code_block. rewrite Eb, Et, Ee, Es. cbn [bind].
-  destruct (c_code cfg && (4 <=? sc - b_blkIndent st)); [apply nr_ok|]. rewrite HO. cbn [negb]. apply nr_ok.
+  destruct (c_code cfg && (4 <=? sc - b_blkIndent st)); [apply nr_ok|].
+  destruct (negb (c_html cfg)); [apply nr_ok|].
+  destruct (e <=? b + t) eqn:EP; [apply nr_ok|].
+  apply nr_bind; [apply nr_py_idx; lia|]. intros c _. destruct (negb (c =? 60)); [apply nr_ok|]. cbv zeta.
+  match goal with |- nr (match ?X with Some _ => _ | None => _ end) => destruct X as [[[opener closer] can]|] end; [|apply nr_ok].
+  destruct silent; [apply nr_ok|]. specialize (HC eq_refl).
+  assert (KSL : keep_ok st sl (b_blkIndent st)).
+  { intros b' e' t' bs' Eb' Ee' Et' _. rewrite Eb in Eb'. rewrite Ee in Ee'. rewrite Et in Et'.
+    injection Eb' as <-. injection Ee' as <-. injection Et' as <-. right. left. lia. }
+  apply nr_bind.
+  { destruct (test closer (slice (b_src st) (b + t) e)); [apply nr_ok|]. apply (html_scan_nr N st R); lia. }
+  intros nl NL.
+  assert (B : sl + 1 <= nl /\ nl <= el).
+  { destruct (test closer (slice (b_src st) (b + t) e)); [rfinish NL; lia|]. apply html_scan_bounds in NL. lia. }
+  apply nr_bind; [|intros content _; apply nr_ok].
+  rewrite get_lines_line. change (b_blkIndent (st_line st nl)) with (b_blkIndent st).
+  apply (get_lines_nr N st R); [lia | lia|]. intros _ _.
+  destruct (test closer (slice (b_src st) (b + t) e)); [rfinish NL; replace (sl + 1 - 1) with sl by lia; exact KSL|].
+  destruct (Z.eq_dec nl (sl + 1)) as [->|Ne]; [replace (sl + 1 - 1) with sl by lia; exact KSL|].
+  eapply (html_scan_keep N st R HC); [exact NL | lia | lia | lia].
 Qed.
 
 (* ---- the paragraph-like rules ---- *)
@@ -756,6 +831,66 @@ Proof.
   eapply bq_blanks_stop; [exact BB | lia | | exact Hlt]. unfold len in HE. lia.
 Qed.
 
+(* the blank scans count columns as getLines does *)
+Lemma py_idx_char_at (s : str) p c : 0 <= p -> py_idx s p = Ok c -> char_at s p = Some c.
+Proof. intros H E. rewrite LfCount.char_at_nonneg by lia. destruct (py_idx_get _ _ _ H E) as [A _]. exact A. Qed.
+
+Lemma bq_blanks_cols K : forall fuel src pos mx offset bs adj p2 o2 li bs',
+  bq_blanks fuel src pos mx offset bs adj = Ok (p2, o2) -> 0 <= pos ->
+  bs' = bs + (if adj then 1 else 0) + K -> offset <= li + K -> o2 <= gcols src pos p2 li bs' + K.
+Proof.
+  induction fuel as [|f IH]; intros src pos mx offset bs adj p2 o2 li bs' H H0 HB HO; cbn [bq_blanks] in H.
+  - rfinish H. rewrite gcols_end by lia. exact HO.
+  - destruct (negb (pos <? mx)) eqn:E; [rfinish H; rewrite gcols_end by lia; exact HO|].
+    destruct (py_idx src pos) as [ch|?|] eqn:Ec; cbn [bind] in H; try discriminate H.
+    destruct (is_space ch) eqn:Sp; [|rfinish H; rewrite gcols_end by lia; exact HO].
+    pose proof (bq_blanks_mono _ _ _ _ _ _ _ _ _ H) as [M1 _].
+    rewrite gcols_step by lia. rewrite (py_idx_char_at _ _ _ H0 Ec). rewrite Sp.
+    eapply IH; [exact H | lia | exact HB|].
+    destruct (ch =? 9); [|lia].
+    set (a := if adj then 1 else 0) in *.
+    pose proof (tabstop_mono (bs + a) offset (li + K) HO) as TM.
+    replace (li + bs') with (li + K + (bs + a)) by lia. replace (offset + bs + a) with (offset + (bs + a)) by lia. lia.
+Qed.
+
+Lemma list_blanks_cols : forall fuel src pos mx offset bs p2 o2 li,
+  list_blanks fuel src pos mx offset bs = Ok (p2, o2) -> 0 <= pos -> offset <= li -> o2 <= gcols src pos p2 li bs.
+Proof.
+  induction fuel as [|f IH]; intros src pos mx offset bs p2 o2 li H H0 HO; cbn [list_blanks] in H.
+  - rfinish H. rewrite gcols_end by lia. exact HO.
+  - destruct (negb (pos <? mx)) eqn:E; [rfinish H; rewrite gcols_end by lia; exact HO|].
+    destruct (py_idx src pos) as [ch|?|] eqn:Ec; cbn [bind] in H; try discriminate H.
+    destruct (ch =? 9) eqn:E9.
+    + pose proof (list_blanks_mono _ _ _ _ _ _ _ _ H) as [M1 _].
+      rewrite gcols_step by lia. rewrite (py_idx_char_at _ _ _ H0 Ec). assert (ch = 9) by lia. subst ch. change (is_space 9) with true. cbv iota. change (9 =? 9) with true. cbv iota.
+      eapply IH; [exact H | lia|]. apply tabstop_mono. exact HO.
+    + destruct (ch =? 32) eqn:E32; [|rfinish H; rewrite gcols_end by lia; exact HO].
+      pose proof (list_blanks_mono _ _ _ _ _ _ _ _ H) as [M1 _].
+      rewrite gcols_step by lia. rewrite (py_idx_char_at _ _ _ H0 Ec). assert (ch = 32) by lia. subst ch. change (is_space 32) with true. cbv iota. change (32 =? 9) with false. cbv iota.
+      eapply IH; [exact H | lia | lia].
+Qed.
+
+(* the row a block quote writes: its indentation is covered by the columns of its blanks *)
+Lemma bq_strip_cols src pos0 e sc bs q : bq_strip src pos0 e sc bs = Ok q -> 0 <= pos0 ->
+  q_sCount q <= gcols src (q_bMark q) (q_bMark q + q_tShift q) 0 (q_bsCount q).
+Proof.
+  intros H H0. unfold bq_strip in H. cbv zeta in H.
+  set (tup := match char_at src (pos0 + 1) with
+              | Some 32 => (pos0 + 1 + 1, sc + 1 + 1, sc + 1 + 1, false, true)
+              | Some 9 => if (bs + (sc + 1)) mod 4 =? 3 then (pos0 + 1 + 1, sc + 1 + 1, sc + 1 + 1, false, true)
+                          else (pos0 + 1, sc + 1, sc + 1, true, true)
+              | _ => (pos0 + 1, sc + 1, sc + 1, false, false)
+              end) in *.
+  assert (P : let '(pos1, initial, offset, adj, sa) := tup in
+              0 <= pos1 /\ offset = initial /\ bs + sc + 1 + (if sa then 1 else 0) = bs + (if adj then 1 else 0) + initial).
+  { unfold tup. destruct (char_at src (pos0 + 1)) as [[|p|p]|]; try (repeat split; lia).
+    do 6 (try destruct p as [p|p|]); try (repeat split; lia). destruct ((bs + (sc + 1)) mod 4 =? 3); repeat split; lia. }
+  destruct tup as [[[[pos1 initial] offset] adj] sa]. destruct P as (P1 & -> & P3).
+  destruct (bq_blanks (S (length src)) src pos1 e initial bs adj) as [[p2 o2]|?|] eqn:BB; cbn [bind] in H; try discriminate H.
+  pose proof (bq_blanks_cols initial _ _ _ _ _ _ _ _ _ 0 (bs + sc + 1 + (if sa then 1 else 0)) BB P1 P3 ltac:(lia)) as C.
+  injection H as <-. cbn [q_bMark q_tShift q_sCount q_bsCount]. replace (pos1 + (p2 - pos1)) with p2 by lia. lia.
+Qed.
+
 (* rewriting one row keeps the invariant *)
 Lemma RI_row_update N st st' l :
   RI N st -> 0 <= l <= N ->
@@ -931,6 +1066,46 @@ Proof.
   injection H as <-. repeat split.
 Qed.
 
+Definition CIb (st : bstate) (M : Z) : Prop :=
+  forall l b t sc bs, 0 <= l < M -> tb (b_bMarks st) l = Ok b -> tb (b_tShift st) l = Ok t -> tb (b_sCount st) l = Ok sc -> tb (b_bsCount st) l = Ok bs ->
+    sc <= gcols (b_src st) b (b + t) 0 bs.
+Lemma CI_CIb st : CI st <-> CIb st (b_lineMax st).
+Proof. unfold CI, CIb. tauto. Qed.
+
+Lemma apply_bq_CIb st line q st' M : apply_bq st line q = Ok st' -> 0 <= line -> CIb st M ->
+  q_sCount q <= gcols (b_src st) (q_bMark q) (q_bMark q + q_tShift q) 0 (q_bsCount q) -> CIb st' M.
+Proof.
+  intros AB Hl C Q. destruct (apply_bq_sets _ _ _ _ AB) as (W1 & W2 & W3 & W4).
+  destruct (tb_set_spec _ _ _ _ W1 Hl) as (V1 & O1 & _). destruct (tb_set_spec _ _ _ _ W2 Hl) as (V2 & O2 & _).
+  destruct (tb_set_spec _ _ _ _ W3 Hl) as (V3 & O3 & _). destruct (tb_set_spec _ _ _ _ W4 Hl) as (V4 & O4 & _).
+  assert (ES : b_src st' = b_src st).
+  { unfold apply_bq in AB. rewrite W1, W2, W4, W3 in AB. cbn [bind] in AB. injection AB as <-. reflexivity. }
+  intros l b t sc bs Hlm Eb Et Es Ebs. rewrite ES. destruct (Z.eq_dec l line) as [->|Nl].
+  - rewrite V1 in Eb. rewrite V3 in Et. rewrite V4 in Es. rewrite V2 in Ebs. injection Eb as <-. injection Et as <-. injection Es as <-. injection Ebs as <-. exact Q.
+  - rewrite O1 in Eb by lia. rewrite O3 in Et by lia. rewrite O4 in Es by lia. rewrite O2 in Ebs by lia. exact (C l b t sc bs Hlm Eb Et Es Ebs).
+Qed.
+
+(* only an sCount entry changes, to something not larger *)
+Lemma CIb_sc_update st st' line v M : CIb st M -> 0 <= line ->
+  b_src st' = b_src st -> b_bMarks st' = b_bMarks st -> b_tShift st' = b_tShift st -> b_bsCount st' = b_bsCount st ->
+  tb_set (b_sCount st) line v = Ok (b_sCount st') ->
+  (line < M -> forall b t bs, tb (b_bMarks st) line = Ok b -> tb (b_tShift st) line = Ok t -> tb (b_bsCount st) line = Ok bs -> v <= gcols (b_src st) b (b + t) 0 bs) ->
+  CIb st' M.
+Proof.
+  intros C Hl A1 A2 A3 A4 TS Q. destruct (tb_set_spec _ _ _ _ TS Hl) as (V & O & _).
+  intros l b t sc bs Hlm Eb Et Es Ebs. rewrite A1. rewrite A2 in Eb. rewrite A3 in Et. rewrite A4 in Ebs.
+  destruct (Z.eq_dec l line) as [->|Nl].
+  - rewrite V in Es. injection Es as <-. apply Q; try assumption; lia.
+  - rewrite O in Es by lia. exact (C l b t sc bs Hlm Eb Et Es Ebs).
+Qed.
+
+Lemma CIb_same st st' M : b_src st' = b_src st -> b_bMarks st' = b_bMarks st -> b_tShift st' = b_tShift st -> b_sCount st' = b_sCount st ->
+  b_bsCount st' = b_bsCount st -> CIb st M -> CIb st' M.
+Proof. intros A1 A2 A3 A4 A5 H. unfold CIb. rewrite A1, A2, A3, A4, A5. exact H. Qed.
+
+Lemma CIb_weaken st M M' : CIb st M -> M' <= M -> CIb st M'.
+Proof. intros H Hm l b t sc bs Hl. apply H. lia. Qed.
+
 (* changes that leave the marks alone: lineMax lowered, sCount entries rewritten *)
 Lemma RI_same_marks N st st' : RI N st ->
   b_src st' = b_src st -> b_bMarks st' = b_bMarks st -> b_eMarks st' = b_eMarks st -> b_tShift st' = b_tShift st ->
@@ -944,26 +1119,26 @@ Definition sv_lens (sv : saved) (n : Z) : Prop := len (o_b sv) = n /\ len (o_ts 
 
 Lemma bq_loop_r N term (T : term_fr term) (TN : term_nr N term) sl0 st0 : forall fuel st sv nl el lle,
   RI N st -> 0 <= sl0 -> sl0 < nl -> nl <= el -> el <= b_lineMax st ->
-  svr (b_src st) (b_eMarks st) N sl0 (o_b sv) (o_ts sv) -> sv_lens sv (nl - sl0) -> sv4 st st0 sv sl0 nl ->
+  svr (b_src st) (b_eMarks st) N sl0 (o_b sv) (o_ts sv) -> sv_lens sv (nl - sl0) -> sv4 st st0 sv sl0 nl -> CIb st (b_lineMax st) ->
   nr (bq_loop fuel term st sv nl el lle)
   /\ forall r sv' st', bq_loop fuel term st sv nl el lle = Ok (r, sv', st') ->
        RI N st' /\ nl <= r <= el /\ r <= b_lineMax st' <= b_lineMax st
        /\ b_src st' = b_src st /\ b_eMarks st' = b_eMarks st
        /\ svr (b_src st') (b_eMarks st') N sl0 (o_b sv') (o_ts sv')
-       /\ (exists n, sv_lens sv' n /\ r - sl0 <= n <= r + 1 - sl0 /\ sv4 st' st0 sv' sl0 (sl0 + n)).
+       /\ (exists n, sv_lens sv' n /\ r - sl0 <= n <= r + 1 - sl0 /\ sv4 st' st0 sv' sl0 (sl0 + n)) /\ CIb st' (b_lineMax st').
 Proof.
-  induction fuel as [|f IH]; intros st sv nl el lle R S0 S1 L0 L1 SO (N1 & N2 & N3 & N4) S4; [split; [apply nr_oof | discriminate]|].
+  induction fuel as [|f IH]; intros st sv nl el lle R S0 S1 L0 L1 SO (N1 & N2 & N3 & N4) S4 CB; [split; [apply nr_oof | discriminate]|].
   assert (S4' : sv4 st st0 sv sl0 (sl0 + (nl - sl0))) by (replace (sl0 + (nl - sl0)) with nl by lia; exact S4).
   cbn [bq_loop].
   assert (LMN : b_lineMax st <= N) by (destruct R as [LM _]; lia).
   destruct (negb (nl <? el)) eqn:NE.
   { split; [apply nr_ok|]. intros r sv' st' H. injection H as <- <- <-. split; [exact R|]. split; [lia|]. split; [lia|].
-    split; [reflexivity|]. split; [reflexivity|]. split; [exact SO|]. exists (nl - sl0). split; [repeat split; assumption|]. split; [lia | exact S4']. }
+    split; [reflexivity|]. split; [reflexivity|]. split; [exact SO|]. split; [|exact CB]. exists (nl - sl0). split; [repeat split; assumption|]. split; [lia | exact S4']. }
   destruct (RI_reads N st nl R ltac:(lia)) as (b & e & t & sc & bs & Eb & Ee & Et & Es & Ebs & (B0 & T0 & E0 & I1 & I3 & I2)).
   unfold line_start. rewrite Es. cbn [bind]. rewrite Eb, Et. cbn [bind]. rewrite Ee. cbn [bind].
   destruct (e <=? b + t) eqn:MP.
   { split; [apply nr_ok|]. intros r sv' st' H. injection H as <- <- <-. split; [exact R|]. split; [lia|]. split; [lia|].
-    split; [reflexivity|]. split; [reflexivity|]. split; [exact SO|]. exists (nl - sl0). split; [repeat split; assumption|]. split; [lia | exact S4']. }
+    split; [reflexivity|]. split; [reflexivity|]. split; [exact SO|]. split; [|exact CB]. exists (nl - sl0). split; [repeat split; assumption|]. split; [lia | exact S4']. }
   destruct (py_idx (b_src st) (b + t)) as [c|ex|] eqn:Ec; cbn [bind].
   2:{ exfalso. exact (nr_py_idx (b_src st) (b + t) ltac:(lia) ex Ec). }
   2:{ split; [apply nr_oof | discriminate]. }
@@ -990,11 +1165,12 @@ Proof.
     { rewrite A1, A2. exact SO1. }
     { repeat split; lia. }
     { eapply (sv4_step st st0 sv sl0 nl sv1 st1); [exact S4 | lia | exact SL | right; exact W1 | right; exact W2 | right; exact W3 | right; exact W4]. }
-    split; [exact NR|]. intros r sv' st' H. destruct (POST r sv' st' H) as (P1 & P2 & P3 & P4 & P5 & P6 & P7).
-    split; [exact P1|]. split; [lia|]. split; [lia|]. split; [congruence|]. split; [congruence|]. split; [exact P6 | exact P7].
+    { rewrite A3. eapply apply_bq_CIb; [exact AB | lia | exact CB|]. eapply bq_strip_cols; [exact BS | lia]. }
+    split; [exact NR|]. intros r sv' st' H. destruct (POST r sv' st' H) as (P1 & P2 & P3 & P4 & P5 & P6 & P7 & P8).
+    split; [exact P1|]. split; [lia|]. split; [lia|]. split; [congruence|]. split; [congruence|]. split; [exact P6|]. split; [exact P7 | exact P8].
   - destruct lle.
     { split; [apply nr_ok|]. intros r sv' st' H. injection H as <- <- <-. split; [exact R|]. split; [lia|]. split; [lia|].
-      split; [reflexivity|]. split; [reflexivity|]. split; [exact SO|]. exists (nl - sl0). split; [repeat split; assumption|]. split; [lia | exact S4']. }
+      split; [reflexivity|]. split; [reflexivity|]. split; [exact SO|]. split; [|exact CB]. exists (nl - sl0). split; [repeat split; assumption|]. split; [lia | exact S4']. }
     destruct (term nm_blockquote st nl el) as [[tt st1]|ex|] eqn:TE; cbn [bind].
     2:{ exfalso. refine (TN nm_blockquote st nl el ltac:(discriminate) _ ex TE). split; [exact R|]. lia. }
     2:{ split; [apply nr_oof | discriminate]. }
@@ -1022,13 +1198,18 @@ Proof.
         split.
         { pose proof R2 as (LM2 & K1' & K2' & K3' & K4' & K5' & RR). apply (RI_same_marks N (st1 <| b_lineMax := nl |>) _ R2); try reflexivity; cbn in *; try lia; assumption. }
         cbn. split; [lia|]. split; [lia|]. split; [exact Q1|]. split; [exact Q3|]. split; [exact SO1|].
+        split.
+        2:{ eapply (CIb_sc_update (st1 <| b_lineMax := nl |>) _ nl _ nl); [|lia|reflexivity|reflexivity|reflexivity|reflexivity|exact TS|intros X; lia].
+            apply (CIb_same st); cbn; try assumption. eapply CIb_weaken; [exact CB | lia]. }
         exists (nl + 1 - sl0). split; [repeat split; assumption|]. split; [lia|].
         replace (sl0 + (nl + 1 - sl0)) with (nl + 1) by lia.
         eapply (sv4_step (st1 <| b_lineMax := nl |>) st0 sv sl0 nl sv1 _ 0 0 0); [|lia|exact SL|left; reflexivity|left; reflexivity|left; reflexivity|right; exact TS].
         apply (sv4_same st); cbn; try assumption.
       * split; [apply nr_ok|]. intros r sv' st' H. injection H as <- <- <-.
         split; [exact R2|]. cbn. split; [lia|]. split; [lia|]. split; [exact Q1|]. split; [exact Q3|].
-        split; [rewrite Q1, Q3; exact SO|]. exists (nl - sl0). split; [repeat split; assumption|]. split; [lia|].
+        split; [rewrite Q1, Q3; exact SO|]. split.
+        2:{ apply (CIb_same st); cbn; try assumption. eapply CIb_weaken; [exact CB | lia]. }
+        exists (nl - sl0). split; [repeat split; assumption|]. split; [lia|].
         apply (sv4_same st); cbn; try assumption.
     + (* a lazy continuation line *)
       destruct (save_line_r N sv st1 nl sl0 R1 ltac:(lia)) as [SN SP]; try assumption.
@@ -1050,8 +1231,11 @@ Proof.
       { repeat split; lia. }
       { eapply (sv4_step st1 st0 sv sl0 nl sv1 _ 0 0 0); [|lia|exact SL|left; reflexivity|left; reflexivity|left; reflexivity|right; exact TS].
         apply (sv4_same st); try assumption. }
-      split; [exact NR|]. intros r sv' st' H. destruct (POST r sv' st' H) as (P1 & P2 & P3 & P4 & P5 & P6 & P7). cbn in P3, P4, P5.
-      split; [exact P1|]. split; [lia|]. split; [lia|]. split; [congruence|]. split; [congruence|]. split; [exact P6 | exact P7].
+      { cbn [b_lineMax set]. eapply (CIb_sc_update st1 _ nl (-1)); [|lia|reflexivity|reflexivity|reflexivity|reflexivity|exact TS|].
+        - apply (CIb_same st); try assumption. rewrite Q7. exact CB.
+        - intros _ b' t' bs' _ _ _. pose proof (gcols_ge (b_src st1) bs' (b' + t') (Z.to_nat (b' + t' - b')) b' 0 eq_refl). lia. }
+      split; [exact NR|]. intros r sv' st' H. destruct (POST r sv' st' H) as (P1 & P2 & P3 & P4 & P5 & P6 & P7 & P8). cbn in P3, P4, P5.
+      split; [exact P1|]. split; [lia|]. split; [lia|]. split; [congruence|]. split; [congruence|]. split; [exact P6|]. split; [exact P7 | exact P8].
 Qed.
 
 (* what a rule or the nested tokenize leaves behind *)
@@ -1059,6 +1243,8 @@ Definition post_ok (N : Z) (st st' : bstate) : Prop :=
   RI N st' /\ TI st' /\ b_lineMax st' = b_lineMax st /\ b_src st' = b_src st /\ b_eMarks st' = b_eMarks st.
 Lemma tabs_eq_TI st st' : tabs_eq st st' -> TI st -> TI st'.
 Proof. intros (A1 & A2 & A3 & A4 & _) H. unfold TI. rewrite A1, A2, A3, A4. exact H. Qed.
+Lemma tabs_eq_CI st st' : tabs_eq st st' -> CI st -> CI st'.
+Proof. intros (A1 & A2 & A3 & A4 & A5 & A6 & A7) H. unfold CI. rewrite A1, A2, A4, A5, A6, A7. exact H. Qed.
 Lemma post_tabs N st st' : RI N st -> TI st -> tabs_eq st st' -> post_ok N st st'.
 Proof.
   intros R HT T. split; [exact (tabs_eq_RI _ _ _ T R)|]. split; [exact (tabs_eq_TI _ _ T HT)|].
@@ -1067,15 +1253,15 @@ Qed.
 
 (* the nested tokenize: no exception; what it leaves behind; where the cursor ends *)
 Definition rec_n (N : Z) (rec : rec_t) : Prop := forall st a b,
-  RI N st -> TI st -> 0 <= a -> a < b -> b <= b_lineMax st ->
+  RI N st -> TI st -> CI st -> 0 <= a -> a < b -> b <= b_lineMax st ->
   nr (rec st a b) /\ forall st', rec st a b = Ok st' -> tabs_eq st st' /\ a <= b_line st' <= b_lineMax st.
 
 Lemma r_blockquote_r N rec term (RN : rec_n N rec) (T : term_fr term) (TN : term_nr N term) st sl el silent :
-  pre2 N st sl el -> (silent = false -> TI st) ->
+  pre2 N st sl el -> (silent = false -> TI st) -> (silent = false -> CI st) ->
   nr (r_blockquote cfg rec term st sl el silent)
   /\ forall b st', r_blockquote cfg rec term st sl el silent = Ok (b, st') -> tabs_eq st st'.
 Proof.
-  intros (R & S0 & S1 & S2) HTI. assert (Hl : 0 <= sl <= N) by (destruct R as [LM _]; lia).
+  intros (R & S0 & S1 & S2) HTI HCI. assert (Hl : 0 <= sl <= N) by (destruct R as [LM _]; lia).
   assert (LMN : b_lineMax st <= N) by (destruct R as [LM _]; lia). prologue R Hl.
   assert (SAME : tabs_eq st st) by apply tabs_eq_refl.
   unfold r_blockquote, line_start, code_block_at, is_code_block. cbv zeta. rewrite Eb, Et, Ee, Es. cbn [bind].
@@ -1083,7 +1269,7 @@ Proof.
   rewrite match_some_62.
   destruct (match char_at (b_src st) (b + t) with Some z => z =? 62 | None => false end) eqn:C62;
     [|split; [apply nr_ok | intros b0 st' H; injection H as <- <-; exact SAME]].
-  destruct silent; [split; [apply nr_ok | intros b0 st' H; injection H as <- <-; exact SAME]|]. specialize (HTI eq_refl).
+  destruct silent; [split; [apply nr_ok | intros b0 st' H; injection H as <- <-; exact SAME]|]. specialize (HTI eq_refl). specialize (HCI eq_refl).
   rewrite Ebs. cbn [bind].
   (* the marker is a character of the line: the line is not empty *)
   assert (PE : b + t < e).
@@ -1120,10 +1306,11 @@ Proof.
     unfold sv4. cbn [o_b o_bs o_ts o_sc]. split; [|split; [|split]]; apply sv_tab_init. }
   destruct (bq_loop_r N term T TN sl st (S (Z.to_nat (el - sl))) (st_parent st1 nm_blockquote) sv0 (sl + 1) el (q_empty q)) as [LN LP].
   { exact R1. } { lia. } { lia. } { lia. } { cbn. lia. } { cbn. rewrite A1, A2. exact SO1. } { repeat split; lia. } { exact S41. }
+  { cbn [b_lineMax st_parent set]. apply (CIb_same st1); try reflexivity. rewrite A3. eapply apply_bq_CIb; [exact AB | lia | apply CI_CIb; exact HCI|]. eapply bq_strip_cols; [exact BS | lia]. }
   destruct (bq_loop (S (Z.to_nat (el - sl))) term (st_parent st1 nm_blockquote) sv0 (sl + 1) el (q_empty q)) as [[[nl sv] st3]|ex|] eqn:BL; cbn [bind].
   2:{ exfalso. exact (LN ex eq_refl). }
   2:{ split; [apply nr_oof | discriminate]. }
-  destruct (LP nl sv st3 eq_refl) as (R3 & B1 & B2 & B3 & B4 & SO3 & (n & (V1 & V2 & V3 & V4) & NB & S43)). cbn in B2, B3, B4.
+  destruct (LP nl sv st3 eq_refl) as (R3 & B1 & B2 & B3 & B4 & SO3 & (n & (V1 & V2 & V3 & V4) & NB & S43) & CB3). cbn in B2, B3, B4.
   pose proof BL as BL'. apply (bq_loop_m term T sl) in BL'; try lia.
   2: cbn; lia. 2: exact HT1. 2: cbn; rewrite K13, K14; exact TSO1.
   destruct BL' as (_ & _ & _ & HT3 & TSO3 & _ & _).
@@ -1131,7 +1318,8 @@ Proof.
   { split; [|split; [exact HT3 | repeat split]]. pose proof R3 as (LM3 & K1 & K2 & K3 & K4 & K5 & RR).
     apply (RI_same_marks N st3 _ R3); try reflexivity; cbn; try lia; assumption. }
   destruct R5 as (R5 & HT5 & LM5 & SR5 & EM5).
-  match goal with |- nr (bind (rec ?S5 ?a ?b0) _) /\ _ => destruct (RN S5 a b0 R5 HT5 S0 ltac:(lia) ltac:(rewrite LM5; lia)) as [RNN RNP];
+  match goal with |- nr (bind (rec ?S5 ?a ?b0) _) /\ _ => assert (C5 : CI S5) by (apply CI_CIb; apply (CIb_same st3); try reflexivity; exact CB3);
+    destruct (RN S5 a b0 R5 HT5 C5 S0 ltac:(lia) ltac:(rewrite LM5; lia)) as [RNN RNP];
     destruct (rec S5 a b0) as [st6|ex|] eqn:RC; cbn [bind] end.
   2:{ exfalso. exact (RNN ex eq_refl). }
   2:{ split; [apply nr_oof | discriminate]. }
@@ -1258,11 +1446,11 @@ Definition pam_ok (st : bstate) (sl pam : Z) : Prop :=
 
 Lemma list_items_r N rec term (RN : rec_n N rec) (T : term_fr term) (TN : term_nr N term) :
   forall fuel st isOrd mc sl el pam start tight pee,
-  RI N st -> TI st -> 0 <= sl -> sl < el -> el <= b_lineMax st -> b_line st = sl -> pam_ok st sl pam ->
+  RI N st -> TI st -> CI st -> 0 <= sl -> sl < el -> el <= b_lineMax st -> b_line st = sl -> pam_ok st sl pam ->
   nr (list_items cfg fuel rec term st isOrd mc sl sl el pam start tight pee)
   /\ forall nl t' st', list_items cfg fuel rec term st isOrd mc sl sl el pam start tight pee = Ok (nl, t', st') -> tabs_eq st st'.
 Proof.
-  induction fuel as [|f IH]; intros st isOrd mc sl el pam start tight pee R HT S0 S1 S2 BL PM; [split; [apply nr_oof | discriminate]|].
+  induction fuel as [|f IH]; intros st isOrd mc sl el pam start tight pee R HT HC S0 S1 S2 BL PM; [split; [apply nr_oof | discriminate]|].
   cbn [list_items].
   assert (NE : negb (sl <? el) = false) by lia. rewrite NE.
   assert (LMN : b_lineMax st <= N) by (destruct R as [LM _]; lia). assert (Hl : 0 <= sl <= N) by lia.
@@ -1296,6 +1484,19 @@ Proof.
       unfold row_ok. replace (b + (contentStart - b)) with contentStart by lia. repeat split; try lia; assumption. }
   assert (HT2 : TI st2) by (unfold TI, st2, st1; cbn; exact (TIp_set_ts _ _ _ _ _ _ _ HT S0 S1' ltac:(lia))).
   assert (L2' : b_lineMax st2 = b_lineMax st) by reflexivity.
+  assert (C2 : CI st2).
+  { intros l b' t' sx bs' Hlm Eb' Et' Es' Ebs'. change (b_src st2) with (b_src st). change (b_lineMax st2) with (b_lineMax st) in Hlm.
+    change (b_bMarks st2) with (b_bMarks st) in Eb'. change (b_tShift st2) with ts' in Et'. change (b_sCount st2) with sc' in Es'. change (b_bsCount st2) with (b_bsCount st) in Ebs'.
+    destruct (Z.eq_dec l sl) as [->|Nl].
+    - rewrite Eb in Eb'. rewrite TS1 in Et'. rewrite SC1 in Es'. rewrite Ebs in Ebs'.
+      injection Eb' as <-. injection Et' as <-. injection Es' as <-. injection Ebs' as <-.
+      replace (b + (contentStart - b)) with contentStart by lia.
+      pose proof (HC sl b t sc bs ltac:(lia) Eb Et Es Ebs) as C0.
+      rewrite (gcols_split (b_src st) bs contentStart (b + t) (Z.to_nat (b + t - b)) b 0 eq_refl) by lia.
+      rewrite (gcols_split (b_src st) bs contentStart pam (Z.to_nat (pam - (b + t))) (b + t) _ eq_refl) by lia.
+      destruct (gcols_chars (b_src st) bs pam (Z.to_nat (pam - (b + t))) (b + t) (gcols (b_src st) b (b + t) 0 bs) eq_refl ltac:(lia) ltac:(lia)) as [GC|GC]; [|lia].
+      eapply (list_blanks_cols _ _ _ _ _ _ _ _ _ LB); lia.
+    - rewrite (TSO l ltac:(lia) Nl) in Et'. rewrite (SCO l ltac:(lia) Nl) in Es'. exact (HC l b' t' sx bs' Hlm Eb' Et' Es' Ebs'). }
   (* the item body *)
   match goal with |- nr (bind ?m _) /\ _ => assert (BODY : nr m /\ forall st3, m = Ok st3 -> tabs_eq st2 st3 /\ sl <= b_line st3 <= b_lineMax st) end.
   { destruct (e <=? contentStart) eqn:MC.
@@ -1305,9 +1506,9 @@ Proof.
       destruct em.
       + split; [apply nr_ok|]. intros st3 H. injection H as <-. change (b_line st2) with (b_line st). rewrite BL.
         split; [repeat split|]. cbn. lia.
-      + destruct (RN st2 sl el R2 HT2 S0 S1 ltac:(rewrite L2'; lia)) as [A B']. split; [exact A|]. intros st3 H.
+      + destruct (RN st2 sl el R2 HT2 C2 S0 S1 ltac:(rewrite L2'; lia)) as [A B']. split; [exact A|]. intros st3 H.
         destruct (B' st3 H) as (P1 & P6). rewrite L2' in *. split; assumption.
-    - cbn [bind]. destruct (RN st2 sl el R2 HT2 S0 S1 ltac:(rewrite L2'; lia)) as [A B']. split; [exact A|]. intros st3 H.
+    - cbn [bind]. destruct (RN st2 sl el R2 HT2 C2 S0 S1 ltac:(rewrite L2'; lia)) as [A B']. split; [exact A|]. intros st3 H.
       destruct (B' st3 H) as (P1 & P6). rewrite L2' in *. split; assumption. }
   destruct BODY as [BN BP].
   match goal with |- nr (bind ?m _) /\ _ => destruct m as [st3|ex|] eqn:BD; cbn [bind] end.
@@ -1352,7 +1553,7 @@ Proof.
   2:{ split; [apply nr_oof | discriminate]. }
   pose proof (T nm_list _ _ _ _ _ ltac:(discriminate) TE) as F7.
   pose proof (tabs_eq_trans _ _ _ TE6 (fr_tabs_eq _ _ F7)) as TE7.
-  pose proof (tabs_eq_RI _ _ _ TE7 R) as R7. pose proof (tabs_eq_TI _ _ TE7 HT) as HT7.
+  pose proof (tabs_eq_RI _ _ _ TE7 R) as R7. pose proof (tabs_eq_TI _ _ TE7 HT) as HT7. pose proof (tabs_eq_CI _ _ TE7 HC) as HC7.
   destruct tt; [split; [apply nr_ok|]; intros nl t' st' H; injection H as <- <- <-; exact TE7|].
   assert (SKIP : nr (if isOrd then skip_ordered st7 (b_line st3) else skip_bullet st7 (b_line st3))
                  /\ forall pam', (if isOrd then skip_ordered st7 (b_line st3) else skip_bullet st7 (b_line st3)) = Ok pam' -> pam' = -1 \/ pam_ok st7 (b_line st3) pam').
@@ -1378,7 +1579,7 @@ Proof.
   2:{ exfalso. exact (nr_py_idx (b_src st7) (pam' - 1) ltac:(lia) ex MC'). }
   2:{ split; [apply nr_oof | discriminate]. }
   destruct (negb (mc' =? mc)); [split; [apply nr_ok|]; intros nl t' st' H; injection H as <- <- <-; exact TE7|].
-  destruct (IH st7 isOrd mc (b_line st3) el pam' start' (if negb (b_tight st3) || pee then false else tight) pee' R7 HT7 ltac:(lia) ltac:(lia)) as [NR POST].
+  destruct (IH st7 isOrd mc (b_line st3) el pam' start' (if negb (b_tight st3) || pee then false else tight) pee' R7 HT7 HC7 ltac:(lia) ltac:(lia)) as [NR POST].
   { destruct TE7 as (_ & _ & _ & _ & _ & _ & X). rewrite X. lia. }
   { rewrite (fr_line _ _ F7). exact B6. }
   { exact PM'. }
@@ -1386,11 +1587,11 @@ Proof.
 Qed.
 
 Lemma r_list_r N rec term (RN : rec_n N rec) (T : term_fr term) (TN : term_nr N term) st sl el silent :
-  pre2 N st sl el -> (silent = false -> TI st) -> (silent = false -> b_line st = sl) ->
+  pre2 N st sl el -> (silent = false -> TI st) -> (silent = false -> CI st) -> (silent = false -> b_line st = sl) ->
   nr (r_list cfg rec term st sl el silent)
   /\ forall b st', r_list cfg rec term st sl el silent = Ok (b, st') -> tabs_eq st st'.
 Proof.
-  intros (R & S0 & S1 & S2) HTI BLn. assert (Hl : 0 <= sl <= N) by (destruct R as [LM _]; lia).
+  intros (R & S0 & S1 & S2) HTI HCI BLn. assert (Hl : 0 <= sl <= N) by (destruct R as [LM _]; lia).
   assert (LMN : b_lineMax st <= N) by (destruct R as [LM _]; lia). prologue R Hl.
   assert (SAME : forall b0 st', Ok (false, st) = Ok (b0, st') \/ Ok (true, st) = Ok (b0, st') -> tabs_eq st st').
   { intros b0 st' [H|H]; injection H as <- <-; apply tabs_eq_refl. }
@@ -1424,11 +1625,11 @@ Proof.
   destruct (py_idx (b_src st) (pam - 1)) as [mc|ex|] eqn:MC0; cbn [bind].
   2:{ exfalso. exact (nr_py_idx (b_src st) (pam - 1) ltac:(lia) ex MC0). }
   2:{ split; [apply nr_oof | discriminate]. }
-  destruct silent; [split; [apply nr_ok | intros b0 st' H; apply (SAME b0 st'); right; exact H]|]. specialize (BLn eq_refl). specialize (HTI eq_refl).
+  destruct silent; [split; [apply nr_ok | intros b0 st' H; apply (SAME b0 st'); right; exact H]|]. specialize (BLn eq_refl). specialize (HTI eq_refl). specialize (HCI eq_refl).
   match goal with |- context [list_items _ _ _ _ (st_parent ?s1 _)] => set (st1 := s1) in * end.
   assert (TE1 : tabs_eq st (st_parent st1 nm_list)) by (unfold st1; destruct isOrd; repeat split).
   destruct (list_items_r N rec term RN T TN (S (Z.to_nat (el - sl))) (st_parent st1 nm_list) isOrd mc sl el pam (b + t) true false) as [LN LP].
-  { exact (tabs_eq_RI _ _ _ TE1 R). } { exact (tabs_eq_TI _ _ TE1 HTI). } { exact S0. } { exact S1. }
+  { exact (tabs_eq_RI _ _ _ TE1 R). } { exact (tabs_eq_TI _ _ TE1 HTI). } { exact (tabs_eq_CI _ _ TE1 HCI). } { exact S0. } { exact S1. }
   { rewrite (tabs_eq_lineMax _ _ TE1). exact S2. } { unfold st1. destruct isOrd; exact BLn. }
   { intros b' e' t' X1 X2 X3. destruct TE1 as (_ & Y2 & Y3 & Y4 & _). rewrite Y2 in X1. rewrite Y3 in X2. rewrite Y4 in X3.
     rewrite Eb in X1. rewrite Ee in X2. rewrite Et in X3. injection X1 as <-. injection X2 as <-. injection X3 as <-. exact SP. }
@@ -1547,14 +1748,14 @@ Definition term_names_ok : Prop :=
 Lemma term_names_silent : term_names_ok -> silent_terms cfg.
 Proof. intros H ch n CN I. exact (proj1 (H ch n CN I)). Qed.
 
-Lemma apply_rule_r N rec term (RN : rec_n N rec) (T : term_fr term) (TN : term_nr N term) (HO : c_html cfg = false)
+Lemma apply_rule_r N rec term (RN : rec_n N rec) (T : term_fr term) (TN : term_nr N term)
       n st sl el silent :
-  pre2 N st sl el -> (silent = false -> TI st) -> (silent = false -> b_line st = sl) ->
+  pre2 N st sl el -> (silent = false -> TI st) -> (silent = false -> CI st) -> (silent = false -> b_line st = sl) ->
   (silent = true -> silent_capable n /\ str_eqb n nm_reference = false) -> (silent = false -> nonempty st sl) ->
   nr (apply_rule cfg rf cf rec term n st sl el silent)
   /\ forall b st', apply_rule cfg rf cf rec term n st sl el silent = Ok (b, st') -> tabs_eq st st'.
 Proof.
-  intros P HT BL SC NE. unfold apply_rule.
+  intros P HT HC BL SC NE. unfold apply_rule.
   destruct (str_eqb n nm_table); [split; [apply (r_table_nr cfg N); assumption | intros b st'; apply r_table_tabs; assumption]|].
   destruct (str_eqb n nm_code) eqn:N2; [split; [apply (r_code_nr cfg N); assumption | intros b st'; apply r_code_tabs]|].
   destruct (str_eqb n nm_fence); [split; [apply (r_fence_nr cfg N); assumption | intros b st'; apply r_fence_tabs]|].
@@ -1572,7 +1773,7 @@ Proof.
 Qed.
 
 Lemma no_rec_n N : rec_n N no_rec.
-Proof. intros st a b _ _ _ _ _. split; [apply nr_oof | discriminate]. Qed.
+Proof. intros st a b _ _ _ _ _ _. split; [apply nr_oof | discriminate]. Qed.
 Lemma no_term_nr N : term_nr N no_term.
 Proof. intros ch st a b _ _. apply nr_oof. Qed.
 
@@ -1583,35 +1784,35 @@ Proof.
 Qed.
 
 (* a silent chain *)
-Lemma run_chain_nr N (HO : c_html cfg = false) : forall names st l el,
+Lemma run_chain_nr N : forall names st l el,
   (forall n, In n names -> silent_capable n /\ str_eqb n nm_reference = false) ->
   pre2 N st l el -> nr (run_chain cfg rf cf names st l el).
 Proof.
   induction names as [|n names IH]; intros st l el SC P; cbn [run_chain]; [apply nr_ok|].
-  destruct (apply_rule_r N no_rec no_term (no_rec_n N) no_term_fr (no_term_nr N) HO n st l el true P
-              ltac:(discriminate) ltac:(discriminate) (fun _ => SC n (or_introl eq_refl)) ltac:(discriminate)) as [A B].
+  destruct (apply_rule_r N no_rec no_term (no_rec_n N) no_term_fr (no_term_nr N) n st l el true P
+              ltac:(discriminate) ltac:(discriminate) ltac:(discriminate) (fun _ => SC n (or_introl eq_refl)) ltac:(discriminate)) as [A B].
   apply nr_bind; [exact A|]. intros [r s1] E. specialize (B r s1 E).
   destruct r; [apply nr_ok|]. apply IH; [intros m Hm; apply SC; right; exact Hm | exact (pre2_tabs _ _ _ _ _ B P)].
 Qed.
 
-Lemma terminated_nr N (HO : c_html cfg = false) (TNO : term_names_ok) : term_nr N (terminated cfg rf cf).
+Lemma terminated_nr N (TNO : term_names_ok) : term_nr N (terminated cfg rf cf).
 Proof.
-  intros ch st a b CN P. unfold terminated. apply (run_chain_nr N HO); [|exact P].
+  intros ch st a b CN P. unfold terminated. apply (run_chain_nr N); [|exact P].
   intros n Hn. exact (TNO ch n CN Hn).
 Qed.
 
 Lemma nonempty_tabs st st' l : tabs_eq st st' -> nonempty st l -> nonempty st' l.
 Proof. intros (_ & A2 & A3 & A4 & _) H b e t. rewrite A2, A3, A4. apply H. Qed.
 
-Lemma try_rules_r N rec (RN : rec_n N rec) (RC : rec_c rec) (HO : c_html cfg = false) (TNO : term_names_ok) :
-  forall names st sl el, pre2 N st sl el -> TI st -> b_line st = sl -> nonempty st sl ->
+Lemma try_rules_r N rec (RN : rec_n N rec) (RC : rec_c rec) (TNO : term_names_ok) :
+  forall names st sl el, pre2 N st sl el -> TI st -> CI st -> b_line st = sl -> nonempty st sl ->
   nr (try_rules cfg rf cf rec names st sl el)
   /\ forall st', try_rules cfg rf cf rec names st sl el = Ok st' -> tabs_eq st st'.
 Proof.
-  induction names as [|n names IH]; intros st sl el P HT BL NE; cbn [try_rules].
+  induction names as [|n names IH]; intros st sl el P HT HC BL NE; cbn [try_rules].
   { split; [apply nr_ok | intros st' H; injection H as <-; apply tabs_eq_refl]. }
-  destruct (apply_rule_r N rec (terminated cfg rf cf) RN (terminated_fr cfg rf cf (term_names_silent TNO)) (terminated_nr N HO TNO) HO
-              n st sl el false P (fun _ => HT) (fun _ => BL) ltac:(discriminate) (fun _ => NE)) as [A B].
+  destruct (apply_rule_r N rec (terminated cfg rf cf) RN (terminated_fr cfg rf cf (term_names_silent TNO)) (terminated_nr N TNO)
+              n st sl el false P (fun _ => HT) (fun _ => HC) (fun _ => BL) ltac:(discriminate) (fun _ => NE)) as [A B].
   destruct (apply_rule cfg rf cf rec (terminated cfg rf cf) n st sl el false) as [[r s1]|ex|] eqn:AR; cbn [bind].
   2:{ exfalso. exact (A ex eq_refl). }
   2:{ split; [apply nr_oof | discriminate]. }
@@ -1619,7 +1820,7 @@ Proof.
   destruct r; [split; [apply nr_ok | intros st' H; injection H as <-; exact B]|].
   destruct (apply_rule_c cfg rf cf rec _ RC (terminated_fr cfg rf cf (term_names_silent TNO)) _ _ _ _ _ _ _ AR ltac:(discriminate)) as [C _].
   unfold rule_c in C. cbn [andb] in C.
-  destruct (IH s1 sl el (pre2_tabs _ _ _ _ _ B P) (tabs_eq_TI _ _ B HT) ltac:(rewrite (fr_line _ _ C); exact BL) (nonempty_tabs _ _ _ B NE)) as [A2 B2].
+  destruct (IH s1 sl el (pre2_tabs _ _ _ _ _ B P) (tabs_eq_TI _ _ B HT) (tabs_eq_CI _ _ B HC) ltac:(rewrite (fr_line _ _ C); exact BL) (nonempty_tabs _ _ _ B NE)) as [A2 B2].
   split; [exact A2|]. intros st' H. exact (tabs_eq_trans _ _ _ B (B2 st' H)).
 Qed.
 
@@ -1637,14 +1838,14 @@ Proof.
   injection H as H. lia.
 Qed.
 
-Lemma tok_loop_r N rec (RN : rec_n N rec) (RC : rec_c rec) (HO : c_html cfg = false) (TNO : term_names_ok)
+Lemma tok_loop_r N rec (RN : rec_n N rec) (RC : rec_c rec) (TNO : term_names_ok)
       (PA : mem_str nm_paragraph (c_rules cfg) = true) :
   forall fuel st line el hel,
-  RI N st -> TI st -> 0 <= line -> line <= b_lineMax st -> el <= b_lineMax st -> (line < el \/ b_line st = line) ->
+  RI N st -> TI st -> CI st -> 0 <= line -> line <= b_lineMax st -> el <= b_lineMax st -> (line < el \/ b_line st = line) ->
   nr (tok_loop cfg rf cf fuel rec st line el hel)
   /\ forall st', tok_loop cfg rf cf fuel rec st line el hel = Ok st' -> tabs_eq st st'.
 Proof.
-  induction fuel as [|f IH]; intros st line el hel R HT L0 L1 L2 LB; [split; [apply nr_oof | discriminate]|].
+  induction fuel as [|f IH]; intros st line el hel R HT HC L0 L1 L2 LB; [split; [apply nr_oof | discriminate]|].
   cbn [tok_loop].
   assert (LMN : b_lineMax st <= N) by (destruct R as [LM _]; lia).
   destruct (negb (line <? el)) eqn:NE; [split; [apply nr_ok | intros st' H; injection H as <-; apply tabs_eq_refl]|].
@@ -1663,7 +1864,7 @@ Proof.
   { apply (nonempty_tabs st); [exact T1|]. apply is_empty_false_nonempty. unfold line1. apply skip_empty_nonempty; [lia|]. fold line1. lia. }
   assert (P1 : pre2 N (st_line st line1) line1 el).
   { split; [exact (tabs_eq_RI _ _ _ T1 R)|]. change (b_lineMax (st_line st line1)) with (b_lineMax st). lia. }
-  destruct (try_rules_r N rec RN RC HO TNO (c_rules cfg) (st_line st line1) line1 el P1 HT eq_refl NEl) as [TN0 TP0].
+  destruct (try_rules_r N rec RN RC TNO (c_rules cfg) (st_line st line1) line1 el P1 HT HC eq_refl NEl) as [TN0 TP0].
   destruct (try_rules cfg rf cf rec (c_rules cfg) (st_line st line1) line1 el) as [st2|ex|] eqn:TR; cbn [bind].
   2:{ exfalso. exact (TN0 ex eq_refl). }
   2:{ split; [apply nr_oof | discriminate]. }
@@ -1674,7 +1875,7 @@ Proof.
   set (st3 := st2 <| b_tight := negb hel |>) in *.
   change (b_line st3) with (b_line st2).
   assert (T3 : tabs_eq st st3) by (eapply tabs_eq_trans; [exact T1|]; eapply tabs_eq_trans; [exact TP0|]; repeat split).
-  pose proof (tabs_eq_RI _ _ _ T3 R) as R3. pose proof (tabs_eq_TI _ _ T3 HT) as HT3.
+  pose proof (tabs_eq_RI _ _ _ T3 R) as R3. pose proof (tabs_eq_TI _ _ T3 HT) as HT3. pose proof (tabs_eq_CI _ _ T3 HC) as HC3.
   match goal with |- nr (bind ?m _) /\ _ => assert (N1 : nr m) end.
   { destruct (b_line st2 - 1 <? el); [apply (is_empty_nr N); [exact R3 | lia] | apply nr_ok]. }
   match goal with |- nr (bind ?m _) /\ _ => destruct m as [e1|ex|] eqn:E1'; cbn [bind] end.
@@ -1688,21 +1889,21 @@ Proof.
   destruct e2.
   - assert (LT2 : b_line st2 < el) by (destruct (b_line st2 <? el) eqn:X; [lia | discriminate E2']).
     assert (T4 : tabs_eq st (st_line st3 (b_line st2 + 1))) by (eapply tabs_eq_trans; [exact T3|]; repeat split).
-    destruct (IH (st_line st3 (b_line st2 + 1)) (b_line st2 + 1) el true (tabs_eq_RI _ _ _ T4 R) (tabs_eq_TI _ _ T4 HT) ltac:(lia)) as [A B].
+    destruct (IH (st_line st3 (b_line st2 + 1)) (b_line st2 + 1) el true (tabs_eq_RI _ _ _ T4 R) (tabs_eq_TI _ _ T4 HT) (tabs_eq_CI _ _ T4 HC) ltac:(lia)) as [A B].
     { rewrite (tabs_eq_lineMax _ _ T4). lia. } { rewrite (tabs_eq_lineMax _ _ T4). lia. } { right. reflexivity. }
     split; [exact A|]. intros st' H. exact (tabs_eq_trans _ _ _ T4 (B st' H)).
-  - destruct (IH st3 (b_line st2) el (hel || e1) R3 HT3 ltac:(lia)) as [A B].
+  - destruct (IH st3 (b_line st2) el (hel || e1) R3 HT3 HC3 ltac:(lia)) as [A B].
     { rewrite (tabs_eq_lineMax _ _ T3). lia. } { rewrite (tabs_eq_lineMax _ _ T3). lia. } { right. reflexivity. }
     split; [exact A|]. intros st' H. exact (tabs_eq_trans _ _ _ T3 (B st' H)).
 Qed.
 
-Lemma tokenize_rec_n N (HO : c_html cfg = false) (TNO : term_names_ok) (PA : mem_str nm_paragraph (c_rules cfg) = true) :
+Lemma tokenize_rec_n N (TNO : term_names_ok) (PA : mem_str nm_paragraph (c_rules cfg) = true) :
   forall d, rec_n N (tokenize cfg rf cf d).
 Proof.
-  induction d as [|d IH]; intros st a b R HT A0 AB BL; [split; [apply nr_oof | discriminate]|].
+  induction d as [|d IH]; intros st a b R HT HC A0 AB BL; [split; [apply nr_oof | discriminate]|].
   cbn [tokenize].
   pose proof (tokenize_rec_c cfg rf cf (term_names_silent TNO) PA d) as RC.
-  destruct (tok_loop_r N _ IH RC HO TNO PA (S (S (Z.to_nat (b - a)))) st a b false R HT A0 ltac:(lia) BL ltac:(lia)) as [A B].
+  destruct (tok_loop_r N _ IH RC TNO PA (S (S (Z.to_nat (b - a)))) st a b false R HT HC A0 ltac:(lia) BL ltac:(lia)) as [A B].
   split; [exact A|]. intros st' H. split; [exact (B st' H)|].
   destruct (tokenize_rec_c cfg rf cf (term_names_silent TNO) PA (S d) st a b st' H A0 AB BL HT) as (_ & C2 & _). exact C2.
 Qed.
@@ -1811,20 +2012,101 @@ Proof.
     unfold row_ok. repeat split; try lia; intros; lia.
 Qed.
 
+(* ---- the tables of a fresh StateBlock satisfy the column invariant CI ---- *)
+Definition rowsK (src : str) (bM tS sC : list Z) : Prop :=
+  length tS = length bM /\ length sC = length bM
+  /\ forall i b t s, nth_error (rev bM) i = Some b -> nth_error (rev tS) i = Some t -> nth_error (rev sC) i = Some s ->
+       s = gcols src b (b + t) 0 0.
+
+Lemma rowsK_cons src bM tS sC b t s : rowsK src bM tS sC -> s = gcols src b (b + t) 0 0 -> rowsK src (b :: bM) (t :: tS) (s :: sC).
+Proof.
+  intros (L1 & L2 & H) P. split; [cbn [length]; lia|]. split; [cbn [length]; lia|].
+  intros i b' t' s' Hb Ht Hs. cbn [rev] in Hb, Ht, Hs.
+  apply nth_error_snoc in Hb. apply nth_error_snoc in Ht. apply nth_error_snoc in Hs. rewrite !rev_length in *.
+  destruct Hb as [[Lb Hb]|[Lb ->]]; destruct Ht as [[Lt Ht]|[Lt ->]]; destruct Hs as [[Ls Hs]|[Ls ->]]; try lia.
+  exact (H i b' t' s' Hb Ht Hs).
+Qed.
+
+Definition scanK (full : str) (r : scan) : Prop :=
+  rowsK full (sc_bM r) (sc_tS r) (sc_sC r)
+  /\ sc_offset r = gcols full (sc_start r) (sc_start r + sc_indent r) 0 0.
+
+Lemma scan_step_K full r pos c : scanJ full r pos -> scanK full r -> 0 <= pos -> py_idx full pos = Ok c ->
+  scanK full (scan_step (len full) r pos c).
+Proof.
+  intros (_ & S0 & I0 & F) (RK & OK) Hp Ec. destruct (py_idx_get _ _ _ Hp Ec) as [_ PL]. destruct (F PL) as (F1 & F2 & F3).
+  unfold scan_step.
+  destruct (negb (sc_found r) && is_space c) eqn:E.
+  - assert (Sp : is_space c = true) by (destruct (is_space c); [reflexivity | rewrite Bool.andb_false_r in E; discriminate E]).
+    assert (Fd : sc_found r = false) by (destruct (sc_found r); [discriminate E | reflexivity]).
+    specialize (F2 Fd).
+    split; [exact RK|]. cbn [sc_start sc_indent sc_offset].
+    rewrite (gcols_split full 0 (sc_start r + (sc_indent r + 1)) (sc_start r + sc_indent r) _ (sc_start r) 0 eq_refl) by lia.
+    rewrite <- OK. rewrite gcols_step by lia. rewrite F2. rewrite (py_idx_char_at _ _ _ Hp Ec). rewrite Sp.
+    rewrite gcols_end by lia. rewrite Z.add_0_r. reflexivity.
+  - destruct ((c =? 10) || (pos =? len full - 1)) eqn:E2.
+    + cbv zeta. split; cbn [sc_bM sc_tS sc_sC sc_start sc_indent sc_offset].
+      * apply rowsK_cons; [exact RK | exact OK].
+      * rewrite gcols_end by lia. reflexivity.
+    + split; [exact RK|]. cbn [sc_start sc_indent sc_offset]. exact OK.
+Qed.
+
+Lemma scan_loop_K full : forall rest done r, full = done ++ rest -> scanJ full r (len done) -> scanK full r ->
+  scanK full (scan_loop (len full) r (len done) rest).
+Proof.
+  induction rest as [|c rest IH]; intros done r E H K; cbn [scan_loop]; [exact K|].
+  assert (Ec : py_idx full (len done) = Ok c) by (rewrite E; apply py_idx_app).
+  replace (len done + 1) with (len (done ++ [c])) by (rewrite len_app; unfold len; cbn; lia).
+  apply IH; [rewrite <- app_assoc; exact E| |].
+  - replace (len (done ++ [c])) with (len done + 1) by (rewrite len_app; unfold len; cbn; lia).
+    apply scan_step_J; [exact H | apply len_nonneg | exact Ec].
+  - apply (scan_step_K full r (len done) c H K (len_nonneg _) Ec).
+Qed.
+
+Lemma nth_error_map_const {A} (l : list A) i (v : Z) : nth_error (map (fun _ => 0) l) i = Some v -> v = 0.
+Proof. revert i. induction l as [|a l IH]; intros [|i] H; cbn in H; try discriminate; [injection H as <-; reflexivity | exact (IH _ H)]. Qed.
+
+Theorem state_init_CI src env toks : CI (state_init src env toks).
+Proof.
+  unfold CI, state_init. cbv zeta. cbn [b_src b_bMarks b_tShift b_sCount b_bsCount b_lineMax].
+  set (r := scan_loop (len src) (mkScan [] [] [] [] false 0 0 0) 0 src) in *.
+  assert (HJ0 : scanJ src (mkScan [] [] [] [] false 0 0 0) (len (@nil Z))).
+  { unfold scanJ. cbn.
+    split; [split; [reflexivity|]; split; [reflexivity|]; intros i b e t Hb; destruct i; discriminate Hb|].
+    split; [lia|]. split; [lia|]. intros _. split; [lia|]. split; [intros _; lia | discriminate]. }
+  assert (HK : scanK src r).
+  { unfold r. apply (scan_loop_K src src [] _ eq_refl HJ0). unfold scanK. cbn [sc_bM sc_tS sc_sC sc_start sc_indent sc_offset].
+    split; [split; [reflexivity|]; split; [reflexivity|]; intros i b t s Hb; destruct i; discriminate Hb|].
+    rewrite gcols_end by lia. reflexivity. }
+  destruct HK as ((L1 & L2 & H) & _).
+  intros l b t sc bs Hl Eb Et Es Ebs. rewrite tb_nonneg in Eb, Et, Es, Ebs by lia.
+  destruct (nth_error (rev (len src :: sc_bM r)) (Z.to_nat l)) eqn:X1; [|discriminate Eb].
+  destruct (nth_error (rev (0 :: sc_tS r)) (Z.to_nat l)) eqn:X2; [|discriminate Et].
+  destruct (nth_error (rev (0 :: sc_sC r)) (Z.to_nat l)) eqn:X3; [|discriminate Es].
+  destruct (nth_error (map (fun _ : Z => 0) (rev (len src :: sc_bM r))) (Z.to_nat l)) eqn:X4; [|discriminate Ebs].
+  injection Eb as <-. injection Et as <-. injection Es as <-. injection Ebs as <-.
+  apply nth_error_map_const in X4. subst z2.
+  cbn [rev] in X1, X2, X3. apply nth_error_snoc in X1. apply nth_error_snoc in X2. apply nth_error_snoc in X3. rewrite !rev_length in *.
+  destruct X1 as [[A1 X1]|[A1 ->]]; destruct X2 as [[A2 X2]|[A2 ->]]; destruct X3 as [[A3 X3]|[A3 ->]]; try lia.
+  - rewrite (H _ _ _ _ X1 X2 X3). lia.
+  - rewrite gcols_end by lia. lia.
+Qed.
+
 (* ---- ParserBlock.parse never raises ---- *)
 Theorem block_parse_no_raise cfg rf cf src env toks :
-  c_html cfg = false -> term_names_ok cfg -> mem_str nm_paragraph (c_rules cfg) = true ->
+  term_names_ok cfg -> mem_str nm_paragraph (c_rules cfg) = true ->
   nr (block_parse cfg rf cf src env toks).
 Proof.
-  intros HO TNO PA. unfold block_parse.
+  intros TNO PA. unfold block_parse.
   destruct src as [|c src0]; [apply nr_ok|].
   set (st0 := state_init (c :: src0) env toks).
-  pose proof (state_init_RI (c :: src0) env toks) as R. pose proof (state_init_TI (c :: src0) env toks) as HT. fold st0 in R, HT.
+  pose proof (state_init_RI (c :: src0) env toks) as R. pose proof (state_init_TI (c :: src0) env toks) as HT.
+  pose proof (state_init_CI (c :: src0) env toks) as HC. fold st0 in R, HT, HC.
   assert (B0 : b_line st0 = 0) by reflexivity. rewrite B0.
   destruct (Z.eq_dec (b_lineMax st0) 0) as [Z0|NZ].
   - rewrite Z0. cbn [tokenize Z.to_nat Z.sub tok_loop]. change (negb (0 <? 0)) with true. cbv iota. apply nr_ok.
   - assert (LM : 0 <= b_lineMax st0) by (destruct R as [LM _]; lia).
-    destruct (tokenize_rec_n cfg rf cf (b_lineMax st0) HO TNO PA (S (S (Z.to_nat (c_maxNesting cfg)))) st0 0 (b_lineMax st0) R HT ltac:(lia) ltac:(lia) ltac:(lia)) as [A _].
+    destruct (tokenize_rec_n cfg rf cf (b_lineMax st0) TNO PA (S (S (Z.to_nat (c_maxNesting cfg)))) st0 0 (b_lineMax st0) R HT HC ltac:(lia) ltac:(lia) ltac:(lia)) as [A _].
     exact A.
 Qed.
 
